@@ -78,6 +78,46 @@ def render_cache(cache):
     return ";".join(sorted(items))
 
 
+def observe(f):
+    """structured observation of one evaluation call f() -> State"""
+    from pyparsing import ParseException
+    from liquer.state import EvaluationException
+    vocab.CALLS.clear()
+    o = dict(kind="state")
+    try:
+        st = f()
+    except ParseException:
+        return dict(kind="parse-error", calls=list(vocab.CALLS))
+    except EvaluationException as e:
+        p = getattr(e, "position", None)
+        return dict(kind="raised", pos=None if p is None else p.offset, query=getattr(e, "query", None), calls=list(vocab.CALLS))
+    except Exception as e:
+        return dict(kind="exception", exc=type(e).__name__, calls=list(vocab.CALLS))
+    m = st.metadata
+    o["is_error"] = bool(st.is_error)
+    o["status"] = m.get("status")
+    get_raises = False
+    try:
+        v = st.get()
+    except Exception as e:
+        get_raises, v = True, None
+        p = getattr(e, "position", None)
+        o["epos"] = None if p is None or (p.line == 0 and p.offset == 0) else p.offset
+        o["equery"] = getattr(e, "query", None)
+    o["get_raises"] = get_raises
+    o["value"] = None if get_raises else canon(v)
+    o["vars"] = {k: canon(x) for k, x in st.vars.items()}
+    cmds = m.get("commands") or []
+    o["last"] = cmds[-1] if cmds else None
+    o["volatile"] = st.is_volatile()
+    o["caching"] = m.get("caching", True)
+    o["filename"], o["extension"] = m.get("filename"), m.get("extension")
+    o["query"] = m.get("query")
+    o["calls"] = list(vocab.CALLS)
+    o["metadata"] = m
+    return o
+
+
 class Session:
     """one global cache, a sequence of operations; mirrors `eval.session` of the driver"""
 
